@@ -22,7 +22,7 @@ func verifStoreOn(ds datastore.Datastore, ks keystore.Keystore, window int) *sec
 }
 
 // VerifC10Receive: workload = register the sender's chain key, open m1, open m2 (in the order given), with a crash at
-// any mutation. After restart on the surviving datastore: (i) every message whose open had completed before the crash
+// any mutation; the sender has sealed a third message, opened only after the restart. After restart on the surviving datastore: (i) every message whose open had completed before the crash
 // opens again (found by CID) to the same payload; (ii) every other message is still openable, the interrupted
 // registration being repeated as the callers do.
 func VerifC10Receive(order int) {
@@ -40,9 +40,9 @@ func VerifC10Receive(order int) {
 	verif_assume(err == nil)
 	enc, err := snd.GetShareableChainKey(ctx, g, rcvMD.Member())
 	verif_assume(err == nil)
-	var envs [2][]byte
-	var plains [2][]byte
-	for i := 0; i < 2; i++ {
+	var envs [3][]byte
+	var plains [3][]byte
+	for i := 0; i < 3; i++ {
 		plains[i] = verif_anyBytesNonNil("plain")
 		pay, _ := proto.Marshal(&protocoltypes.EncryptedMessage{Plaintext: plains[i]})
 		envs[i], err = snd.SealEnvelope(ctx, g, pay)
@@ -85,6 +85,17 @@ func VerifC10Receive(order int) {
 		}
 		if err == nil {
 			verif_assert(verif_bytesEq(msg.Plaintext, plains[i]), "C10: and opens to the original payload")
+		}
+	}
+	// the workload continues: the sender's next message (counter 3 = window 2 + one opened message past the first) was not
+	// openable when the process stopped, and is now, exactly as in a run that was never interrupted
+	{
+		e, h, err := rcv2.OpenEnvelopeHeaders(envs[2], g)
+		verif_assume(err == nil)
+		msg, err := rcv2.OpenEnvelopePayload(ctx, e, h, gpk, rcvMD2.Device(), verif_cidN(2))
+		verif_assert(err == nil, "C10.iii: after restart the store is as usable as if it had not stopped: the next message of the sender opens")
+		if err == nil {
+			verif_assert(verif_bytesEq(msg.Plaintext, plains[2]), "C10: and opens to the original payload")
 		}
 	}
 	verif_reach("C10.receive.ok")
